@@ -349,4 +349,26 @@ CHECKS = {
              "thorough": {"checks": 40000, "shards": 16, "timeout": 3400, "env": {"VERIF_C15_CASES": 3000}}},
         ],
     },
+    "C10": {
+        "level": "exploration",
+        "level_text": ("The real thruserv binary (built from the tree, rate limits disabled so that they cannot interfere) is driven by "
+                       "websocket clients through rapid-generated histories: sessions created, peers connecting (peer ids from a small "
+                       "pool, so duplicates and reconnects with the same id occur, incl. ids with URL-significant characters), "
+                       "disconnecting, addressed / unaddressed / spoofed (from and session_id forged) / malformed (cut JSON, wrong v, "
+                       "missing msg_id or type, binary frame) messages, up to three sessions alive at once; every payload carries a unique "
+                       "token. A reference routing model decides per token who must, may and must not receive it; after each send the "
+                       "harness waits for the modelled deliveries (barrier) and after the history for a quiescence window, then compares "
+                       "every client's log: exactly the named peer / every other registered peer of the session, nobody in another "
+                       "session, from = the author's connect-time id, no duplicates, per-author order, peer_not_found to the author only."),
+        "level_note": "Server-originated events (peer_list, peer_joined, peer_left) are barriers only; quiescence window 150 ms on loopback bounds how late a stray delivery is noticed; concurrency of the hub itself is C11's subject.",
+        "technique": "model-based stateful property testing (rapid) of the real server binary against a reference routing model with token-tagged messages",
+        "rule": ("history of 4-25 actions; non-trivial = >= 2 sessions with open connections at once AND >= 1 addressed AND >= 1 unaddressed "
+                 "message AND (a spoof or a duplicate-id connect or an unknown addressee); distinct by history."),
+        "assumptions": ["deliveries on loopback complete within the 3 s barrier / 150 ms final window"],
+        "units": [
+            {"name": "srv", "pkg": "./internal/verifsrv", "run": "^TestVerifC10", "binaries": ["thruserv"],
+             "quick": {"checks": 60, "shards": 8, "timeout": 900},
+             "thorough": {"checks": 700, "shards": 16, "timeout": 3400}},
+        ],
+    },
 }
